@@ -93,6 +93,21 @@ VF_DECL(p4_split)
 void p4_split(void) {
     struct in_p4_split IN = VF_IN(p4_split);
     IN.s[P4_LEN] = '\0';
+#ifdef P4_NTOK
+    /* count-boundary family: concrete layout (token count, token lengths, one
+     * doubled separator, trailing separator), every token byte symbolic       */
+    {
+        unsigned p = 0;
+        for (int t = 0; t < P4_NTOK; ++t) {
+            unsigned tl = P4_PATTERN == 0 ? 1 : P4_PATTERN == 1 ? 2 : P4_PATTERN == 2 ? ((t & 1) ? 3 : 1) : (unsigned)(t % 4) + 1;
+            for (unsigned k = 0; k < tl; ++k) { VASSUME(IN.s[p] != '\0' && IN.s[p] != ' '); p++; }
+            if (t + 1 < P4_NTOK || P4_TRAIL) IN.s[p++] = ' ';
+            bool dbl = (P4_DOUBLE == 1 && t == 0) || (P4_DOUBLE == 2 && t == P4_NTOK / 2) || (P4_DOUBLE == 3 && t == P4_NTOK - 2);
+            if (dbl && t + 1 < P4_NTOK) IN.s[p++] = ' ';   /* an empty token */
+        }
+        IN.s[p] = '\0';
+    }
+#endif
     if (P4_EXACT >= 0) {
         for (int i = 0; i < P4_EXACT; ++i) VASSUME(IN.s[i] != '\0');
         IN.s[P4_EXACT >= 0 ? P4_EXACT : 0] = '\0';
